@@ -333,8 +333,11 @@ def rule_sniff_agrees(repo, col):
          if isinstance(e, ast.Name)), None)
     need = set()
     for s in parse.body:
+        # a guard on the line itself (not on what was parsed from it)
         if isinstance(s, ast.If) and len(s.body) == 1 and isinstance(
-                s.body[0], ast.Continue) and not s.orelse:
+                s.body[0], ast.Continue) and not s.orelse and any(
+                isinstance(x, ast.Name) and x.id == lv
+                for x in ast.walk(s.test)):
             need |= _keeps(s.test, lv, negate=True)
     gen = sniff.generators[0]
     sv = gen.target.id if isinstance(gen.target, ast.Name) else None
@@ -1382,9 +1385,9 @@ def rule_partial_decode(repo, col):
            '%d partial helpers, %d attribute uses' % (len(partial_), n))
 
 
-def rule_date_whole(repo, col):
+def rule_date_whole(repo, col, funcs=('Table.from_json', 'Table.from_hdf5')):
     rule = 'AG-DATEINV'
-    for q in ('Table.from_json', 'Table.from_hdf5'):
+    for q in funcs:
         if not repo.has_func(TABLE, q):
             continue
         fn = repo.func(TABLE, q)
@@ -1392,8 +1395,35 @@ def rule_date_whole(repo, col):
             if isinstance(c, ast.Call) and (call_name(c) or '').endswith(
                     'fromisoformat') and c.args:
                 a = c.args[0]
+                # follow a local bound once
+                if isinstance(a, ast.Name):
+                    ds = [x.value for x in ast.walk(fn) if isinstance(
+                        x, ast.Assign) and len(x.targets) == 1 and
+                        isinstance(x.targets[0], ast.Name) and
+                        x.targets[0].id == a.id]
+                    cut = [d for d in ds if any(
+                        isinstance(y, ast.Call) and (
+                            call_name(y) or '').split('.')[-1] in (
+                            'sub', 'subn', 'replace', 'split', 'rsplit',
+                            'partition', 'rpartition', 'rstrip', 'strip',
+                            'removesuffix') and (call_name(y) or '') not in (
+                            'str.strip',) for y in ast.walk(d)) or any(
+                        isinstance(y, ast.Subscript) and isinstance(
+                            y.slice, ast.Slice) for y in ast.walk(d))]
+                    # plain whitespace strip() without arguments is harmless
+                    cut = [d for d in cut if not (
+                        isinstance(d, ast.Call) and isinstance(
+                            d.func, ast.Attribute) and d.func.attr in (
+                            'strip', 'rstrip') and not d.args)]
+                    if cut:
+                        a = cut[0]
                 sliced = any(isinstance(x, ast.Subscript) and isinstance(
-                    x.slice, ast.Slice) for x in ast.walk(a))
+                    x.slice, ast.Slice) for x in ast.walk(a)) or any(
+                    isinstance(y, ast.Call) and (
+                        call_name(y) or '').split('.')[-1] in (
+                        'sub', 'subn', 'replace', 'split', 'rsplit',
+                        'partition', 'rpartition', 'removesuffix')
+                    for y in ast.walk(a))
                 col.check(not sliced, rule, TABLE, q, 'date-whole', c,
                           'the whole date text is parsed',
                           '`%s` parses a slice of the stored date: the UTC '
@@ -2198,6 +2228,60 @@ def rule_kernel_unconditional(repo, col):
                       % (unparse(extra[0].test, 60) if extra else ''))
 
 
+def rule_cleanup_unconditional(repo, col):
+    """SB-KERNELALWAYS (clean-up): once the kernel has run, the filter that
+    drops emptied vectors runs on every path to the return, for the
+    subsampled axis and for the other one (a vector that was empty before
+    the draw has to go even when the draw emptied nothing)."""
+    from .cfg import CFG
+    rule = 'SB-KERNELALWAYS'
+    q = 'Table.subsample'
+    if not repo.has_func(TABLE, q):
+        return
+    fn = repo.func(TABLE, q)
+    cfg = CFG(fn)
+    kern = [n for n in cfg.stmt_nodes() if n.kind == 'stmt' and any(
+        isinstance(c, ast.Call) and call_name(c) == 'subsample'
+        for c in ast.walk(n.stmt)) and not isinstance(
+        n.stmt, (ast.If, ast.For, ast.While, ast.Try, ast.With))]
+    filt = [n for n in cfg.stmt_nodes() if n.kind == 'stmt' and any(
+        isinstance(c, ast.Call) and isinstance(c.func, ast.Attribute) and
+        c.func.attr in ('filter', 'remove_empty') for c in ast.walk(n.stmt))
+        and not isinstance(n.stmt, (ast.If, ast.For, ast.While, ast.Try,
+                                    ast.With))]
+    if not kern or not filt:
+        col.unknown(rule, TABLE, q, 'cleanup', fn,
+                    'kernel call / clean-up filter not located')
+        return
+    # group the filters by their axis argument
+    by_axis = {}
+    for n in filt:
+        for c in ast.walk(n.stmt):
+            if isinstance(c, ast.Call) and isinstance(
+                    c.func, ast.Attribute) and c.func.attr in (
+                    'filter', 'remove_empty'):
+                a = next((k_.value for k_ in c.keywords
+                          if k_.arg == 'axis'), None)
+                by_axis.setdefault(unparse(a, 40) if a is not None
+                                   else 'sample', set()).add(n)
+    for k in kern:
+        after = {ax: {n for n in ns if cfg.path_avoiding(k, n, set()) or
+                      n is k} for ax, ns in by_axis.items()}
+        after = {ax: ns for ax, ns in after.items() if ns}
+        col.soft(len(after) >= 2, rule, TABLE, q, 'cleanup-both-axes',
+                 k.stmt, 'clean-up filters on %d axes follow the kernel'
+                 % len(after), 'fewer than two clean-up filters follow the '
+                 'kernel')
+        for ax, ns in sorted(after.items()):
+            leak = cfg.path_avoiding(k, cfg.exit, ns)
+            col.check(not leak, rule, TABLE, q, 'cleanup-always:%s' % ax,
+                      sorted(ns, key=lambda n: n.stmt.lineno)[0].stmt,
+                      'runs on every path from the kernel to the return',
+                      'the clean-up filter over axis=%s can be skipped '
+                      'after the kernel ran: vectors that are empty stay '
+                      'in the result' % ax)
+
+
 def rule_rank_methods(repo, col):
     rule = 'AG-RANKMETHODS'
     q = 'Table.rankdata'
@@ -2683,3 +2767,611 @@ def rule_filtered_extreme(repo, col, rels=(TABLE,)):
                           unparse(c, 60), unparse(on_param[0], 40)))
     col.ok(rule, TABLE, '<file>', 'scan', None,
            '%d max/min reductions examined' % n)
+
+
+# ===========================================================================
+# ninth round of seeded changes
+# ===========================================================================
+RULE_TEXT['OR-SORTEDHAY'] = (
+    'np.searchsorted / bisect over an array of ids is only handed an array '
+    'in ascending code-point order (sorted() without key, np.sort, '
+    'np.unique, union1d / intersect1d): an order made by natsort or a key '
+    'function is not the order the bisection compares with.')
+
+_ASC = {'sorted', 'sort', 'unique', 'union1d', 'intersect1d', 'setdiff1d',
+        'arange', 'cumsum'}
+_OTHER_ORDER = {'natsort', 'natsorted', 'argsort', 'lexsort', 'reversed',
+                'shuffle', 'permutation'}
+
+
+def _order_of(fn, e, depth=0, seen=None):
+    """'asc' / 'other' / None for the order of the sequence `e`."""
+    seen = seen if seen is not None else set()
+    if e is None or depth > 6:
+        return None
+    if isinstance(e, ast.Call):
+        name = (call_name(e) or '').split('.')[-1]
+        if name == 'sorted':
+            return 'other' if any(k.arg in ('key', 'reverse')
+                                  for k in e.keywords) else 'asc'
+        if name in _ASC:
+            return 'asc'
+        if name in _OTHER_ORDER:
+            return 'other'
+        if name in ('array', 'asarray', 'list', 'tuple', 'astype', 'copy') \
+                and (e.args or isinstance(e.func, ast.Attribute)):
+            inner = e.args[0] if e.args and name != 'astype' else (
+                e.func.value if isinstance(e.func, ast.Attribute) else None)
+            if name == 'copy' and isinstance(e.func, ast.Attribute):
+                inner = e.func.value
+            return _order_of(fn, inner, depth + 1, seen)
+        return None
+    if isinstance(e, ast.Attribute) and e.attr == 'indptr':
+        return 'asc'
+    if isinstance(e, ast.Name):
+        if e.id in seen:
+            return None
+        seen.add(e.id)
+        defs = [n.value for n in body_walk(fn) if isinstance(n, ast.Assign)
+                and any(isinstance(t, ast.Name) and t.id == e.id
+                        for t in n.targets)]
+        got = {_order_of(fn, d, depth + 1, seen) for d in defs}
+        if got == {'asc'}:
+            return 'asc'
+        if 'other' in got:
+            return 'other'
+        return None
+    return None
+
+
+def rule_sorted_haystack(repo, col, rels=(TABLE,)):
+    rule = 'OR-SORTEDHAY'
+    n = 0
+    for rel, q, fn in repo.all_functions():
+        if rel not in rels or isinstance(fn, ast.Lambda):
+            continue
+        for c in body_walk(fn):
+            if not isinstance(c, ast.Call):
+                continue
+            name = (call_name(c) or '').split('.')[-1]
+            if name not in ('searchsorted', 'bisect_left', 'bisect_right',
+                            'bisect'):
+                continue
+            if isinstance(c.func, ast.Attribute) and dotted(
+                    c.func.value) not in ('np', 'numpy', 'bisect'):
+                hay = c.func.value          # A.searchsorted(v)
+            else:
+                hay = c.args[0] if c.args else None
+            if hay is None or any(isinstance(x, ast.Attribute) and
+                                  x.attr == 'indices'
+                                  for x in ast.walk(hay)):
+                continue                    # OR-SORTED decides those
+            n += 1
+            o = _order_of(fn, hay)
+            if o == 'other':
+                col.bad(rule, rel, q, 'haystack-order', c,
+                        '`%s` bisects an array that was put in another '
+                        'order than the ascending code-point order (natsort '
+                        '/ key function / permutation): ids whose natural '
+                        'and code-point order differ (S9 / S10) get wrong '
+                        'positions' % unparse(c, 70))
+            elif o == 'asc':
+                col.ok(rule, rel, q, 'haystack-order', c, 'ascending')
+            else:
+                col.unknown(rule, rel, q, 'haystack-order', c,
+                            'order of the searched array not resolved')
+    col.ok(rule, TABLE, '<file>', 'scan', None,
+           '%d bisections over arrays other than stored indices' % n)
+
+
+RULE_TEXT['OR-ROWCOUNT'] = (
+    'in the classic-text reader every line that contributes an observation '
+    'id advances the row counter its counts are stored under before the '
+    'next line is read (an all-zero line is an observation too).')
+
+
+def rule_row_counter(repo, col):
+    from .cfg import CFG
+    rule = 'OR-ROWCOUNT'
+    q = 'Table._extract_data_from_tsv'
+    if not repo.has_func(TABLE, q):
+        return
+    fn = repo.func(TABLE, q)
+    loop = None
+    for s in body_walk(fn):
+        if isinstance(s, ast.For) and any(
+                isinstance(c, ast.Call) and isinstance(c.func, ast.Attribute)
+                and c.func.attr == 'append' and
+                'ids' in (dotted(c.func.value) or '')
+                for b in s.body for c in ast.walk(b)):
+            loop = s
+    if loop is None:
+        col.unknown(rule, TABLE, q, 'shape', fn, 'data loop not recognised')
+        return
+    # the row coordinate of the stored triples
+    rowvars = set()
+    for c in ast.walk(loop):
+        if isinstance(c, ast.Call) and isinstance(c.func, ast.Attribute) and \
+                c.func.attr == 'append' and c.args and isinstance(
+                c.args[0], (ast.List, ast.Tuple)) and len(
+                c.args[0].elts) == 3 and isinstance(c.args[0].elts[0],
+                                                    ast.Name):
+            rowvars.add(c.args[0].elts[0].id)
+    incs = [s for s in ast.walk(loop) if isinstance(s, ast.AugAssign) and
+            isinstance(s.target, ast.Name) and s.target.id in rowvars and
+            isinstance(s.op, ast.Add)]
+    if len(rowvars) != 1 or not incs:
+        # e.g. the row number comes from enumerate: nothing to pair
+        col.unknown(rule, TABLE, q, 'counter', loop,
+                    'no explicitly advanced row counter')
+        return
+    cfg = CFG(fn)
+    head = cfg.node(loop)
+    id_nodes = [n for n in cfg.stmt_nodes() if n.kind == 'stmt' and
+                isinstance(n.stmt, ast.Expr) and any(
+                    isinstance(c, ast.Call) and isinstance(
+                        c.func, ast.Attribute) and c.func.attr == 'append'
+                    and 'ids' in (dotted(c.func.value) or '')
+                    for c in ast.walk(n.stmt)) and any(
+                    x is n.stmt for x in ast.walk(loop))]
+    inc_nodes = {n for n in cfg.stmt_nodes() if n.kind == 'stmt' and
+                 n.stmt in incs}
+    if head is None or not id_nodes or not inc_nodes:
+        col.unknown(rule, TABLE, q, 'counter', loop,
+                    'loop statements not located in the CFG')
+        return
+    for k, a in enumerate(id_nodes):
+        leak = cfg.path_avoiding(a, head, inc_nodes)
+        col.check(not leak, rule, TABLE, q, 'advance#%d' % (k + 1), a.stmt,
+                  'the counter is advanced on every path to the next line',
+                  'after `%s` the next line can be reached without '
+                  'advancing `%s` (a `continue` / branch skips it): the '
+                  'counts of every later observation are stored one row '
+                  'too high' % (unparse(a.stmt, 40), sorted(rowvars)[0]))
+
+
+def rule_stored_extreme_guarded(repo, col, rels=(TABLE,)):
+    """TA-EMPTYREDUCE, every other function: `X.data.min()` / `.max()`
+    ranges over the stored values only, and a matrix may have none (an
+    all-zero table, an axis of length 0)."""
+    rule = 'TA-EMPTYREDUCE'
+    n = 0
+    for rel, q, fn in repo.all_functions():
+        if rel not in rels or isinstance(fn, ast.Lambda) or q in (
+                'Table.min', 'Table.max'):
+            continue
+        par = None
+        for c in body_walk(fn):
+            if not (isinstance(c, ast.Call) and isinstance(
+                    c.func, ast.Attribute) and c.func.attr in ('min', 'max')
+                    and isinstance(c.func.value, ast.Attribute) and
+                    c.func.value.attr == 'data' and not c.args and not any(
+                    k.arg == 'initial' for k in c.keywords)):
+                continue
+            n += 1
+            if par is None:
+                par = {}
+                for p in ast.walk(fn):
+                    for ch in ast.iter_child_nodes(p):
+                        par[id(ch)] = p
+            cur, guarded = c, False
+            while id(cur) in par:
+                p = par[id(cur)]
+                t = None
+                if isinstance(p, (ast.If, ast.IfExp, ast.While)) and \
+                        cur is not p.test:
+                    t = p.test
+                elif isinstance(p, ast.BoolOp) and isinstance(
+                        p.op, ast.And) and p.values[0] is not cur:
+                    t = ast.BoolOp(op=ast.And(),
+                                   values=p.values[:p.values.index(cur)]
+                                   if cur in p.values else p.values[:1])
+                if t is not None and any(w in unparse(t, 300) for w in (
+                        '.size', '.nnz', 'len(', '.getnnz', 'is_empty')):
+                    guarded = True
+                cur = p
+            col.check(guarded, rule, rel, q, 'stored-extreme', c,
+                      'only evaluated when there are stored values',
+                      '`%s` raises ValueError for a matrix without stored '
+                      'values (all-zero table, empty axis): nothing guards '
+                      'it' % unparse(c, 40))
+    col.ok(rule, TABLE, '<file>', 'stored-extreme-scan', None,
+           '%d extremes over stored values outside min/max' % n)
+
+
+RULE_TEXT['SB-CLITHIN'] = (
+    'normalize-table applies exactly the operation it names (Table.norm or '
+    'Table.pa) to the table it loaded: no other table-changing method is '
+    'called on it, so the command and the method agree on every table.')
+
+
+def rule_normalize_cli_thin(repo, col):
+    from .rules_effects import MUTATORS
+    rule = 'SB-CLITHIN'
+    rel = 'biom/cli/table_normalizer.py'
+    q = '_normalize_table'
+    if not repo.has_func(rel, q):
+        return
+    fn = repo.func(rel, q)
+    ps = [a.arg for a in fn.args.args]
+    tab = ps[0] if ps else 'table'
+    names = {tab}
+    for s in body_walk(fn):
+        if isinstance(s, ast.Assign) and len(s.targets) == 1 and isinstance(
+                s.targets[0], ast.Name) and any(
+                isinstance(x, ast.Name) and x.id in names
+                for x in ast.walk(s.value)):
+            names.add(s.targets[0].id)
+    n = 0
+    for c in body_walk(fn):
+        if isinstance(c, ast.Call) and isinstance(c.func, ast.Attribute) and \
+                isinstance(c.func.value, ast.Name) and \
+                c.func.value.id in names:
+            n += 1
+            m = c.func.attr
+            changing = (m in MUTATORS or m in (
+                'filter', 'remove_empty', 'subsample', 'transform',
+                'rankdata', 'collapse', 'sort', 'sort_order', 'head',
+                'update_ids', 'del_metadata', 'add_metadata')) and \
+                m not in ('norm', 'pa')
+            col.check(not changing, rule, rel, q, 'call:%s' % m, c,
+                      'the named operation / a read',
+                      '`%s` changes the table besides the requested '
+                      'normalisation: `biom normalize-table` no longer '
+                      'returns what Table.%s returns (e.g. all-zero '
+                      'vectors disappear)' % (unparse(c, 50),
+                                              'norm / pa'))
+    col.soft(n >= 2, rule, rel, q, 'instances', fn, '%d table calls' % n,
+             'norm / pa calls not found')
+
+
+RULE_TEXT['TA-IDSASREAD'] = (
+    'from_tsv hands the constructor the ids exactly as the reader took them '
+    'from the text: they are not passed through a text transformation '
+    '(Unicode normalisation, case folding, stripping, quoting) on the way.')
+
+_ID_KEEPING = {'list', 'tuple', 'array', 'asarray', 'copy'}
+
+
+def rule_ids_as_read(repo, col):
+    rule = 'TA-IDSASREAD'
+    q = 'Table.from_tsv'
+    if not repo.has_func(TABLE, q):
+        return
+    fn = repo.func(TABLE, q)
+    ctors = [c for c in ast.walk(fn) if isinstance(c, ast.Call) and
+             call_name(c) in ('Table', 'cls')]
+    n = 0
+    for k, c in enumerate(ctors):
+        for pos, slot in ((1, 'observation_ids'), (2, 'sample_ids')):
+            a = c.args[pos] if len(c.args) > pos else next(
+                (kw.value for kw in c.keywords if kw.arg == slot), None)
+            if not isinstance(a, ast.Name):
+                continue
+            n += 1
+            defs = [s for s in body_walk(fn) if isinstance(s, ast.Assign) and
+                    any(isinstance(x, ast.Name) and x.id == a.id
+                        for t in s.targets for x in ast.walk(t))]
+            changing = []
+            for d in defs:
+                v = d.value
+                if isinstance(v, ast.Call) and (call_name(v) or '').endswith(
+                        '_extract_data_from_tsv'):
+                    continue
+                if isinstance(v, ast.Call) and (call_name(v) or '').split(
+                        '.')[-1] in _ID_KEEPING and v.args and dotted(
+                        v.args[0]) == a.id:
+                    continue
+                if isinstance(v, (ast.List, ast.Tuple)) and not v.elts:
+                    continue
+                if isinstance(v, (ast.ListComp, ast.GeneratorExp)) or (
+                        isinstance(v, ast.Call) and any(
+                            isinstance(x, ast.Name) and x.id == a.id
+                            for x in ast.walk(v))):
+                    changing.append(d)
+            col.check(not changing, rule, TABLE, q,
+                      'ctor@%d:%s' % (k + 1, slot),
+                      changing[0] if changing else c,
+                      'the ids are passed on as read',
+                      '`%s` rewrites the ids between the reader and the '
+                      'constructor: ids that differ only in what the '
+                      'rewrite removes collapse or no longer equal the '
+                      'exported ones' % (unparse(changing[0], 70)
+                                         if changing else ''))
+    col.soft(n >= 2, rule, TABLE, q, 'instances', fn, '%d id arguments' % n,
+             'constructor id arguments not found')
+
+
+def rule_filtered_stack(repo, col, rels=(TABLE,), funcs=None):
+    """TA-FILTERMAX (stacking): np.hstack / vstack / concatenate raise on an
+    empty sequence; one built from a *filtered* selection needs a guard."""
+    rule = 'TA-FILTERMAX'
+    n = 0
+    for rel, q, fn in repo.all_functions():
+        if rel not in rels or isinstance(fn, ast.Lambda) or (
+                funcs is not None and q not in funcs):
+            continue
+        comps = {}
+        for s in body_walk(fn):
+            if isinstance(s, ast.Assign) and len(s.targets) == 1 and \
+                    isinstance(s.targets[0], ast.Name) and isinstance(
+                    s.value, (ast.ListComp, ast.GeneratorExp)):
+                comps.setdefault(s.targets[0].id, []).append(s.value)
+        par = None
+        for c in body_walk(fn):
+            if not (isinstance(c, ast.Call) and (call_name(c) or '').split(
+                    '.')[-1] in ('hstack', 'vstack', 'concatenate') and
+                    c.args and isinstance(c.args[0], (ast.ListComp,
+                                                      ast.GeneratorExp))):
+                continue
+            n += 1
+            comp = c.args[0]
+            filt, names = list(comp.generators[0].ifs), set()
+            it = comp.generators[0].iter
+            if isinstance(it, ast.Name) and len(comps.get(it.id, [])) == 1:
+                names.add(it.id)
+                filt += comps[it.id][0].generators[0].ifs
+            if not filt:
+                col.ok(rule, rel, q, 'stack@%d' % n, c, 'not filtered')
+                continue
+            if par is None:
+                par = {}
+                for p in ast.walk(fn):
+                    for ch in ast.iter_child_nodes(p):
+                        par[id(ch)] = p
+            cur, guarded = c, False
+            while id(cur) in par:
+                p = par[id(cur)]
+                if isinstance(p, (ast.If, ast.IfExp)) and cur is not p.test \
+                        and any(isinstance(y, ast.Name) and y.id in names
+                                for y in ast.walk(p.test)):
+                    guarded = True
+                cur = p
+            col.check(guarded, rule, rel, q, 'filtered-stack', c,
+                      'guarded by a test of the selection',
+                      '`%s` stacks a selection filtered by `%s`: when '
+                      'nothing passes the filter (every requested vector '
+                      'is empty) the call raises ValueError instead of '
+                      'giving an empty result' % (unparse(c, 60),
+                                                  unparse(filt[0], 40)))
+    col.ok(rule, TABLE, '<file>', 'stack-scan', None,
+           '%d stacked comprehensions examined' % n)
+
+
+RULE_TEXT['AX-UCPAIR'] = (
+    'parse_uc keeps, per axis, one id list and one {id: position} lookup '
+    'that grow together: a lookup is never updated together with the id '
+    'list of the other axis (directly or through a shared helper).')
+
+
+def rule_uc_pairs(repo, col):
+    rule = 'AX-UCPAIR'
+    rel = 'biom/parse.py'
+    q = 'parse_uc'
+    if not repo.has_func(rel, q):
+        return
+    fn = repo.func(rel, q)
+
+    def block_pairs(f):
+        """(lookup name, list name, node) co-updated in one block of f"""
+        out = []
+        for blk_owner in ast.walk(f):
+            for fld in ('body', 'orelse'):
+                blk = getattr(blk_owner, fld, None)
+                if not isinstance(blk, list) or not blk or not isinstance(
+                        blk[0], ast.stmt):
+                    continue
+                apps = [(dotted(c.func.value), c) for s in blk
+                        if isinstance(s, ast.Expr) and isinstance(
+                            s.value, ast.Call) for c in [s.value]
+                        if isinstance(c.func, ast.Attribute) and
+                        c.func.attr == 'append' and c.args]
+                stores = [(dotted(s.targets[0].value), s) for s in blk
+                          if isinstance(s, ast.Assign) and isinstance(
+                              s.targets[0], ast.Subscript)]
+                for ln, c in apps:
+                    for dn, s in stores:
+                        if ln and dn and unparse(c.args[0], 80) == unparse(
+                                s.targets[0].slice, 80):
+                            out.append((dn, ln, s))
+        return out
+
+    pairs = []
+    helpers = {d.name: d for d in ast.walk(fn) if isinstance(
+        d, ast.FunctionDef) and d is not fn}
+    top_pairs = [p for p in block_pairs(fn)]
+    for dn, ln, node in top_pairs:
+        inside = next((h for h in helpers.values() if any(
+            x is node for x in ast.walk(h))), None)
+        if inside is None:
+            pairs.append((dn, ln, node))
+            continue
+        hp = [a.arg for a in inside.args.args]
+        if dn not in hp or ln not in hp:
+            col.unknown(rule, rel, q, 'helper', node,
+                        'helper updates something other than its parameters')
+            continue
+        for c in ast.walk(fn):
+            if isinstance(c, ast.Call) and isinstance(c.func, ast.Name) and \
+                    c.func.id == inside.name:
+                b = dict(zip(hp, c.args))
+                for kw in c.keywords:
+                    if kw.arg:
+                        b[kw.arg] = kw.value
+                d_, l_ = dotted(b.get(dn)), dotted(b.get(ln))
+                if d_ and l_:
+                    pairs.append((d_, l_, c))
+                else:
+                    col.unknown(rule, rel, q, 'helper-call', c,
+                                'arguments not resolved')
+    by_d, by_l = {}, {}
+    for d_, l_, node in pairs:
+        by_d.setdefault(d_, {})[l_] = node
+        by_l.setdefault(l_, {})[d_] = node
+    for d_, ls in sorted(by_d.items()):
+        col.check(len(ls) == 1, rule, rel, q, 'lookup:%s' % d_,
+                  list(ls.values())[-1],
+                  'grows together with %s only' % sorted(ls)[0],
+                  'the lookup `%s` is updated together with the id lists '
+                  '%s: two axes share one {id: position} map, so an id '
+                  'used on both axes gets the position it has on the other '
+                  'one' % (d_, sorted(ls)))
+    for l_, ds in sorted(by_l.items()):
+        col.check(len(ds) == 1, rule, rel, q, 'list:%s' % l_,
+                  list(ds.values())[-1],
+                  'indexed by %s only' % sorted(ds)[0],
+                  'the id list `%s` is indexed through the lookups %s'
+                  % (l_, sorted(ds)))
+    col.soft(len(by_d) >= 2, rule, rel, q, 'instances', fn,
+             '%d lookup / list pairs' % len(by_d),
+             'fewer than two lookup / list pairs recognised')
+
+
+RULE_TEXT['TA-NULLONLYNONE'] = (
+    'to_json writes `"type": null` only for a table whose type is None: '
+    'the choice is made by an identity test with None, not by truthiness '
+    '(an empty-string type is a value and is written as "").')
+
+
+def rule_null_only_for_none(repo, col):
+    rule = 'TA-NULLONLYNONE'
+    q = 'Table.to_json'
+    if not repo.has_func(TABLE, q):
+        return
+    fn = repo.func(TABLE, q)
+    alias = {'self.type'}
+    for s in body_walk(fn):
+        if isinstance(s, ast.Assign) and len(s.targets) == 1 and isinstance(
+                s.targets[0], ast.Name) and dotted(s.value) == 'self.type':
+            alias.add(s.targets[0].id)
+    n = 0
+    for s in body_walk(fn):
+        if not isinstance(s, (ast.If, ast.IfExp)):
+            continue
+        branches = (s.body, s.orelse) if isinstance(s, ast.If) else (
+            [s.body], [s.orelse])
+        has_null = any(isinstance(x, ast.Constant) and isinstance(
+            x.value, str) and 'null' in x.value and 'type' in x.value
+            for b in branches for st in b for x in ast.walk(st))
+        if not has_null:
+            continue
+        n += 1
+        t = s.test
+        ident = isinstance(t, ast.Compare) and len(t.ops) == 1 and \
+            isinstance(t.ops[0], (ast.Is, ast.IsNot)) and \
+            dotted(t.left) in alias and isinstance(
+                t.comparators[0], ast.Constant) and \
+            t.comparators[0].value is None
+        truthy = dotted(t) in alias or (
+            isinstance(t, ast.UnaryOp) and isinstance(t.op, ast.Not) and
+            dotted(t.operand) in alias)
+        if ident:
+            col.ok(rule, TABLE, q, 'type-null', s, 'identity test with None')
+        elif truthy:
+            col.bad(rule, TABLE, q, 'type-null', s,
+                    '`%s` decides by truthiness whether the type is written '
+                    'as null: a table of type \'\' is written as null and '
+                    'reads back with type None' % unparse(t, 40))
+        else:
+            col.unknown(rule, TABLE, q, 'type-null', s,
+                        'test deciding the null form not recognised')
+    col.soft(n >= 1, rule, TABLE, q, 'instances', fn, '%d choices' % n,
+             'the null form of the type member was not found')
+
+
+RULE_TEXT['SB-MAPABSENT'] = (
+    'update_ids learns whether an id is in the caller\'s mapping from a '
+    'membership test or .get, never from a KeyError of `id_map[id]`: a '
+    'mapping with defaults (defaultdict, __missing__) answers a subscript '
+    'for every id, and inserts it.')
+
+
+def rule_map_absent(repo, col):
+    rule = 'SB-MAPABSENT'
+    q = 'Table.update_ids'
+    if not repo.has_func(TABLE, q):
+        return
+    fn = repo.func(TABLE, q)
+    ps = [a.arg for a in fn.args.args if a.arg != 'self']
+    if not ps:
+        return
+    m = ps[0]
+    par = {}
+    for p in ast.walk(fn):
+        for ch in ast.iter_child_nodes(p):
+            par[id(ch)] = p
+    n = 0
+    for x in body_walk(fn):
+        if isinstance(x, ast.Subscript) and isinstance(
+                x.ctx, ast.Load) and dotted(x.value) == m:
+            n += 1
+            cur, relies = x, None
+            while id(cur) in par:
+                p = par[id(cur)]
+                if isinstance(p, ast.Try) and cur in p.body and any(
+                        h.type is None or any(
+                            isinstance(t, ast.Name) and t.id in (
+                                'KeyError', 'LookupError', 'Exception')
+                            for t in ast.walk(h.type))
+                        for h in p.handlers):
+                    relies = p
+                    break
+                cur = p
+            col.check(relies is None, rule, TABLE, q, 'subscript', x,
+                      'not used to detect absence',
+                      '`%s` inside try/except KeyError decides whether the '
+                      'id is mapped: with a defaultdict every id "is '
+                      'mapped" (to the default), unmapped ids are renamed '
+                      'and strict=True no longer refuses them'
+                      % unparse(x, 40))
+    col.ok(rule, TABLE, q, 'scan', fn, '%d subscripts of `%s`' % (n, m))
+
+
+RULE_TEXT['TA-IDSETRAW'] = (
+    'subsample(by_id=True) keeps an id when it is in the set of drawn ids: '
+    'that set holds the ids themselves, not their str() / repr() (integer '
+    'or other non-text ids would never match).')
+
+
+def rule_id_set_raw(repo, col):
+    rule = 'TA-IDSETRAW'
+    q = 'Table.subsample'
+    if not repo.has_func(TABLE, q):
+        return
+    fn = repo.func(TABLE, q)
+    used = set()
+    for lam in ast.walk(fn):
+        if isinstance(lam, (ast.Lambda, ast.FunctionDef)) and lam is not fn:
+            for c in ast.walk(lam):
+                if isinstance(c, ast.Compare) and isinstance(
+                        c.ops[0], (ast.In, ast.NotIn)) and isinstance(
+                        c.comparators[0], ast.Name):
+                    used.add(c.comparators[0].id)
+    n = 0
+    for s in body_walk(fn):
+        if isinstance(s, ast.Assign) and len(s.targets) == 1 and isinstance(
+                s.targets[0], ast.Name) and s.targets[0].id in used:
+            n += 1
+            v = s.value
+            elts = []
+            if isinstance(v, (ast.SetComp, ast.ListComp, ast.GeneratorExp)):
+                elts = [v.elt]
+            elif isinstance(v, ast.Call) and v.args and isinstance(
+                    v.args[0], (ast.ListComp, ast.GeneratorExp, ast.SetComp)):
+                elts = [v.args[0].elt]
+            elif isinstance(v, ast.Call) and call_name(v) in (
+                    'set', 'frozenset') and v.args and isinstance(
+                    v.args[0], ast.Call) and call_name(v.args[0]) == 'map':
+                elts = [v.args[0].args[0]] if v.args[0].args else []
+            conv = [e for e in elts if (isinstance(e, ast.Call) and (
+                call_name(e) or '') in ('str', 'repr', 'format', 'bytes')) or
+                isinstance(e, ast.JoinedStr) or (
+                isinstance(e, ast.Name) and e.id in ('str', 'repr')) or (
+                isinstance(e, ast.BinOp) and isinstance(e.op, ast.Mod))]
+            col.check(not conv, rule, TABLE, q, 'selection:%s'
+                      % s.targets[0].id, s, 'holds the ids themselves',
+                      '`%s` fills the selection with a text form of the '
+                      'ids while the predicate tests the id itself: '
+                      'non-text ids are never kept' % unparse(s, 70))
+    col.soft(n >= 1, rule, TABLE, q, 'instances', fn,
+             '%d selections' % n, 'by-id selection set not found')
